@@ -8,6 +8,7 @@ import (
 	"strings"
 	"time"
 
+	"github.com/getlantern/goexpr"
 	"github.com/getlantern/zenodb/core"
 	"github.com/getlantern/zenodb/sql"
 )
@@ -110,6 +111,23 @@ func pushdownAllowed(opts *Opts, query *sql.Query) (bool, error) {
 	parentGroupByAll := true
 	parentGroupParams := make(map[string]bool)
 	for current := query; current != nil; current = current.FromSubQuery {
+		if current != query && current.Where != nil {
+			// Only the outermost query's IN-subqueries are evaluated cluster-wide
+			// and shipped to the partitions. An IN-subquery at a nested level would
+			// be evaluated by each partition against its own rows only, so we can't
+			// push down.
+			nestedInSubQuery := false
+			current.Where.WalkLists(func(list goexpr.List) {
+				if _, isSubQuery := list.(*sql.SubQuery); isSubQuery {
+					nestedInSubQuery = true
+				}
+			})
+			if nestedInSubQuery {
+				log.Debug("Pushdown not allowed because a nested subquery contains an IN-subquery")
+				return false, nil
+			}
+		}
+
 		if current.FromSubQuery == nil {
 			// we've reached the bottom
 			t, err := opts.GetTable(current.From, func(tableFields core.Fields) (core.Fields, error) {
